@@ -32,6 +32,11 @@ CONSTANTS PreferWildcardB3,  \* TRUE: IndexedCache.retrieve before "fix: Indexed
           ElseIfStoresDuplicates,    \* TRUE: ElseIf stores a true result of its right branch in the right cache before the
                              \* duplicate test (commit "fix: a disjunction did not cache ..."); FALSE: a result dropped
                              \* as a duplicate is not stored, although the coverage list may claim everything is known
+          ForAllInvalidatesUniversal,  \* "always": every early exit of for_all clears the result caches of a universal that is
+                             \* a sub-query (they are marked complete and hold the values drawn so far; commit "fix: for_all
+                             \* that fails early ..."); "never": as before; "no-match-only": only the exit taken when a
+                             \* universal value has no satisfying binding does, not the one taken when the intersection
+                             \* with the bindings kept so far runs empty (a deviation: the two exits are separate code)
           ForAllKeepsConditionVars  \* TRUE: for_all requires all non-universal variables of its condition from the
                              \* condition's results (commit "fix: for_all lost solutions ..."); FALSE: as before
 
@@ -139,8 +144,29 @@ StoreAll(outs, j, ckey, keys, S) ==
   IF j > Len(outs) THEN S
   ELSE StoreAll(outs, j + 1, ckey, keys, PutCache(S, ckey, CInsert(CacheOf(S, ckey), RestrictB(outs[j].b, keys), outs[j].f)))
 
+\* ---------------- for_all over the solutions of a sub-query ----------------
+\* for_all(an(entity(u, c)), ..) / for_all(an(entity(u, c)).n, ..): the universal values are the solutions of the sub-query,
+\* drawn one at a time; its condition is evaluated like any other (below the path of the quantifier, branch 2) and leaves
+\* results in its caches.  When the quantifier stops early after the i-th value those caches hold what was produced for
+\* the values drawn so far - and claim to be complete, the first lookup bound nothing.
+IsSubUniversal(n) == n.ue.k = "sub" \/ (n.ue.k = "attr" /\ n.ue.e.k = "sub")
+SubCondOf(n) == IF n.ue.k = "sub" THEN n.ue.c ELSE n.ue.e.c
+UnderPath(key, p) == Len(key[1]) >= Len(p) /\ SubSeq(key[1], 1, Len(p)) = p
+Abandoned(n, path, S, i, nomatch) ==
+  IF ~IsSubUniversal(n) THEN S
+  ELSE LET sub == Append(path, 2)
+       IN IF ForAllInvalidatesUniversal = "always" \/ (ForAllInvalidatesUniversal = "no-match-only" /\ nomatch)
+          THEN [S EXCEPT !.c = [k \in {k2 \in DOMAIN S.c : ~UnderPath(k2, sub)} |-> S.c[k]]]
+          ELSE [S EXCEPT !.c = [k \in DOMAIN S.c |-> IF UnderPath(k, sub) /\ Len(S.c[k].ents) > i
+                                                      THEN [S.c[k] EXCEPT !.ents = SubSeq(@, 1, i)] ELSE S.c[k]]]
+
 RECURSIVE Ev3(_, _, _, _, _, _, _, _, _), ForAllFold(_, _, _, _, _, _, _, _, _, _), AndFold3(_, _, _, _, _, _, _, _, _, _, _), ElifFold3(_, _, _, _, _, _, _, _, _, _, _),
-          RightTrue3(_, _, _, _, _, _, _, _, _)
+          RightTrue3(_, _, _, _, _, _, _, _, _), Universals(_, _, _, _, _, _)
+Universals(n, path, b, S, q, W) ==
+  IF ~IsSubUniversal(n) THEN [us |-> TypedDom(q, W, n.uv), S |-> S]
+  ELSE LET R == Ev3(Build(SubCondOf(n)), Append(path, 2), [b EXCEPT ![n.uv] = 0], FALSE, {n.uv}, {n.uv}, S, q, W)
+           outs == SelectSeq(R.outs, LAMBDA o : ~o.f)
+       IN [us |-> [j \in 1..Len(outs) |-> outs[j].b[n.uv]], S |-> R.S]
 Ev3(n, path, b, ywf, RT, RF, S, q, W) ==
   CASE n.k \in {"cmp", "in"} ->
          LET ckey == <<path, "own">>
@@ -158,8 +184,8 @@ Ev3(n, path, b, ywf, RT, RF, S, q, W) ==
              S |-> S]
     [] n.k = "forall" ->
          \* the universal values in domain order (for_all(u.n, c) ranges over the objects of u as well)
-         LET us == TypedDom(q, W, n.uv)
-         IN ForAllFold(n, path, b, RT, RF, us, 1, <<>>, S, <<q, W>>)
+         LET U == Universals(n, path, b, S, q, W)
+         IN ForAllFold(n, path, b, RT, RF, U.us, 1, <<>>, U.S, <<q, W>>)
     [] n.k = "and" ->
          LET L == Ev3(n.l, Append(path, 0), b, ywf,
                       NodeVars3(n.r) \cup RT \cup (IF AndLeftTrueNeedsFalseSet THEN RF ELSE {}), NodeVars3(n.r) \cup RF, S, q, W)
@@ -203,7 +229,7 @@ ForAllFold(n, path, b, RT, RF, us, i, sol, S, qw) ==
            complete == FlattenSeqs([j \in 1..Len(trues) |-> BindAll(vs, 1, trues[j].b, q, W)])
            current == Dedupe([j \in 1..Len(complete) |-> RestrictB(complete[j], cv)], 1, <<>>)
            sol2 == IF i = 1 THEN current ELSE SelectSeq(sol, LAMBDA d : \E j \in 1..Len(current) : current[j] = d)
-       IN IF current = <<>> \/ sol2 = <<>> THEN [outs |-> <<>>, S |-> R.S]       \* the universal fails: early exit
+       IN IF current = <<>> \/ sol2 = <<>> THEN [outs |-> <<>>, S |-> Abandoned(n, path, R.S, i, current = <<>>)]     \* the universal fails: early exit
           ELSE ForAllFold(n, path, b, RT, RF, us, i + 1, sol2, R.S, qw)
 
 AndFold3(n, path, b, ywf, RT, RF, louts, i, acc, S, qw) ==
